@@ -160,6 +160,7 @@ class Session:
             pass
         self.rw = RecWriter()
         self.g.add_writer(self.rw.make())
+        self.g.set_resolution(1.0)          # interpolated paths stay short (tens of segments, not thousands)
         self.ctx = []
         self.events = []
         self.hook_log = []
@@ -168,6 +169,7 @@ class Session:
         self.xf_scale = 1 if exact else 10000      # integer sub-group: the linear part is integral
         self.probe_hook = None
         self.ext_hook = None
+        self.ext_params = {"lh": 200, "nd": 400, "fd": 1750}
         self.init_rep = self.snapshot()
 
     # ------------------------------------------------------------------ state
@@ -337,6 +339,7 @@ class Session:
             if self.ext_hook is not None:
                 g.remove_hook(self.ext_hook)
             self.ext_hook = extrusion_hook(d["lh"], d["nd"], d["fd"])
+            self.ext_params = {"lh": int(round(d["lh"] * 1000)), "nd": int(round(d["nd"] * 1000)), "fd": int(round(d["fd"] * 1000))}
             return g.add_hook(self.ext_hook)
         if c == "remove_extrusion_hook":
             if self.ext_hook is not None:
@@ -366,7 +369,41 @@ class Session:
                 return t.restore_state()
         raise KeyError("unknown call %r" % c)
 
+    def _auto_request(self, d):
+        """Build a geometrically valid request from the builder's public position and distance mode:
+        the descriptor carries only shape parameters (centre offset, sweep, heights)."""
+        import math as _m
+        g = self.g
+        pos = g.position.resolve()
+        rel = g.distance_mode.value == "relative"
+        a = d["auto"]
+        shape = d["shape"]
+
+        def out(p):
+            return [p[0] - pos.x, p[1] - pos.y, p[2] - pos.z] if rel else list(p)
+        if shape in ("arc", "circle", "helix"):
+            cx, cy = a["c"]
+            r = _m.hypot(cx, cy)
+            a0 = _m.atan2(-cy, -cx)
+            if shape == "circle":
+                return dict(d, center=[cx, cy])
+            r1 = r if shape == "arc" else max(0.5, r + a.get("dr", 0.0))
+            a1 = a0 + a["sweep"]
+            tgt = [pos.x + cx + r1 * _m.cos(a1), pos.y + cy + r1 * _m.sin(a1), pos.z + a.get("dz", 0.0)]
+            return dict(d, target=out(tgt), center=[cx, cy], turns=a.get("turns", 1))
+        if shape in ("spiral", "thread", "arc_radius"):
+            tgt = [pos.x + a["t"][0], pos.y + a["t"][1], pos.z + a.get("dz", 0.0)]
+            return dict(d, target=out(tgt), turns=a.get("turns", 1), pitch=a.get("pitch", 1.0), radius=a.get("radius", 10.0))
+        pts, prev = [], [pos.x, pos.y, pos.z]
+        for off in a["offs"]:
+            p = [prev[0] + off[0], prev[1] + off[1], prev[2] + off[2]]
+            pts.append(off if rel else p)
+            prev = p
+        return dict(d, targets=pts, points=pts)
+
     def _trace(self, d):
+        if d.get("auto") is not None:
+            d = self._auto_request(d)
         t = self.g.trace
         shape = d["shape"]
         kw = dict(d.get("kw") or {})
@@ -412,6 +449,7 @@ class Session:
         return {"a": a, "b": [int(round(c * self.U)) for c in o]}
 
     def apply(self, d):
+        eh_before = self.ext_hook is not None
         self.hook_log.clear()
         xf = self.observe_xf() if self.with_xf else None
         out = "ok"
@@ -427,6 +465,8 @@ class Session:
             "rep": self.snapshot(),
             "hooks": [dict(h) for h in self.hook_log],
             "ph": self.probe_hook is not None and self._hook_registered(self.probe_hook),
+            "eh": bool(self.ext_hook is not None and eh_before),
+            "ehp": dict(self.ext_params),
         }
         if xf is not None:
             ev["xf"] = xf
